@@ -10,7 +10,9 @@ import (
 	"bytes"
 	"encoding/json"
 	"fmt"
+	"io"
 	"math/rand"
+	"testing/iotest"
 
 	"github.com/Tom-Johnston/mamba/graph"
 	"github.com/Tom-Johnston/mamba/graph/search"
@@ -161,7 +163,18 @@ func session(in slIn, ref [][]int, emit func(tr.E)) {
 				if in.Stream { // the saves are read back in the order they were written, from the log itself
 					its[o.I] = search.Load(&log, pre, post)
 				} else {
-					its[o.I] = search.Load(bytes.NewReader(blobs[o.B]), pre, post)
+					// any io.Reader will do: readers that deliver the bytes in pieces (one byte, half of what is asked for) or the last
+					// bytes together with io.EOF are as good as one that hands everything over at once
+					var rd io.Reader = bytes.NewReader(blobs[o.B])
+					switch (o.B + len(blobs[o.B])) % 4 {
+					case 1:
+						rd = iotest.OneByteReader(rd)
+					case 2:
+						rd = iotest.HalfReader(rd)
+					case 3:
+						rd = iotest.DataErrReader(rd)
+					}
+					its[o.I] = search.Load(rd, pre, post)
 				}
 			})
 			emit(tr.E{"ev": "Load", "i": o.I, "b": o.B, "res": res})
